@@ -280,13 +280,6 @@ theorem setCbounds_attainable (n : ℕ) (lb hb : ℕ → ℝ) (hbox : ∀ i < n,
   intro c hc
   exact cbound_attainable n lb hb hbox c (((setCbounds_ok_iff n lb hb spec (some cs)).mp h).2 cs rfl c hc)
 
-/-- a rejected `cbounds` assignment still **replaces** the previous setting (by what had been appended so far). -/
-theorem setCbounds_reject_clears (n : ℕ) (lb hb : ℕ → ℝ) :
-    setCbounds n lb hb (.pair (2:ℝ) 1) = (some [], some .valueError) := by
-  have : cb4Ok n lb hb ⟨(2:ℝ), 1, 0, (n : ℤ)⟩ = false := by
-    unfold cb4Ok; split_ifs <;> simp_all
-  simp [setCbounds, this]
-
 /-- on a device whose bounds are entirely `None`, whatever `cbounds` assignment is accepted is still stored
 as supplied (only bounds over an empty range that contains 0 can be accepted there). -/
 theorem cbLoopNone_ok (n : ℕ) (xs : List (CbItem ℝ)) (cs : List (CBound4 ℝ)) (h : cbLoopNone n xs = (cs, none)) :
